@@ -177,8 +177,10 @@ theorem holds_of_inplace (c : CallObs γ) (hi : c.inplace = true)
     (h2 : (c.extAfter == c.extBefore) = true)
     (h3 : (c.raised || c.resultIds == [c.recv]) = true)
     (h4 : (c.raised || c.after[c.recv]? == c.results.head?) = true)
-    (h5 : (c.raised || (c.reference.isSome && c.results.head? == c.reference)) = true) : holds c = true := by
-  simp only [holds, holdsV, hi, if_true, allV, List.foldl, chk, h1, h2, h3, h4, h5, Verdict.and]
+    (h5 : (c.raised || (c.reference.isSome && c.results.head? == c.reference)) = true)
+    (h6 : ((List.range c.gBefore.length).all (fun i => i == c.recv || c.gAfter[i]? == c.gBefore[i]?)) = true) :
+    holds c = true := by
+  simp only [holds, holdsV, hi, if_true, allV, List.foldl, chk, h1, h2, h3, h4, h5, h6, Verdict.and]
   rfl
 
 theorem holds_of_new (c : CallObs γ) (hi : c.inplace = false)
@@ -187,8 +189,9 @@ theorem holds_of_new (c : CallObs γ) (hi : c.inplace = false)
     (h3 : (c.resultIds.all (fun i => decide (c.before.length ≤ i))) = true)
     (h4 : (c.raised || (c.resultIds.length == c.results.length)) = true)
     (h5 : (c.afterPoke == c.before) = true)
-    (h6 : (c.extAfterPoke == c.extBefore) = true) : holds c = true := by
-  simp only [holds, holdsV, hi, allV, List.foldl, chk, h1, h2, h3, h4, h5, h6, Verdict.and]
+    (h6 : (c.extAfterPoke == c.extBefore) = true)
+    (h7 : (c.gAfter == c.gBefore) = true) (h8 : (c.gAfterPoke == c.gBefore) = true) : holds c = true := by
+  simp only [holds, holdsV, hi, allV, List.foldl, chk, h1, h2, h3, h4, h5, h6, h7, h8, Verdict.and]
   rfl
 
 theorem take_snaps_eq {h h' : Heap γ} (_hle : h.objs.length ≤ h'.objs.length)
@@ -237,6 +240,7 @@ theorem obs_holds_inplace {h : Heap γ} (i : Inv h) (r : Nat) (bs poke : List (B
   · simp only [obsOp, Bool.false_or, Bool.and_eq_true, beq_iff_eq]
     rw [← inplace_equiv i r bs o ho, hc]
     exact ⟨rfl, rfl⟩
+  · simp [obsOp]
 
 /-- one call that returns new tables, followed by ANY in-place poke of the result -/
 theorem obs_holds_new {h : Heap γ} (s : Sep h) (op : Op γ) (poke : List (Body γ))
@@ -270,6 +274,8 @@ theorem obs_holds_new {h : Heap γ} (s : Sep h) (op : Op γ) (poke : List (Body 
     · simp [obsOp, snaps_length]
     · simp only [obsOp, beq_iff_eq]; exact e2
     · simp only [obsOp, beq_iff_eq]; exact i2
+    · simp [obsOp]
+    · simp [obsOp]
   | read pre =>
     apply holds_of_new
     · rfl
@@ -279,6 +285,8 @@ theorem obs_holds_new {h : Heap γ} (s : Sep h) (op : Op γ) (poke : List (Body 
     · simp [obsOp, snaps_length]
     · simp only [obsOp, beq_iff_eq]; exact e2
     · simp only [obsOp, beq_iff_eq]; exact i2
+    · simp [obsOp]
+    · simp [obsOp]
   | new pre srcs F os ss post =>
     apply holds_of_new
     · rfl
@@ -288,6 +296,8 @@ theorem obs_holds_new {h : Heap γ} (s : Sep h) (op : Op γ) (poke : List (Body 
     · simp [obsOp, snaps_length]
     · simp only [obsOp, beq_iff_eq]; exact e2
     · simp only [obsOp, beq_iff_eq]; exact i2
+    · simp [obsOp]
+    · simp [obsOp]
 
 theorem obsOp_inv {h : Heap γ} (s : Inv h) (op : Op γ) (poke : List (Body γ)) : Inv (obsOp h op poke).2 := by
   cases op with
